@@ -58,17 +58,20 @@ ENC = ["csvpath/csvpaths.py:CsvPaths.collect_paths/_load_csvpath/collect_by_line
     "O1-alone-serial-breadth",
     pre=["{LO} <= ta <= {HI} and {LO} <= tb <= {HI} and {LO} <= kb <= {HI} and {LO} <= tc <= {HI}"],
     post="_ == ''",
-    bound="group given by the shard (2-3 members in a given order) over a 5-record file; member thresholds and the stop line "
+    bound="group given by the shard (2-3 members in a given order) over a 5-record file; run methods per shard kind: collect_paths/"
+    "collect_by_line, fast_forward_paths/fast_forward_by_line, next_paths/next_by_line; member thresholds and the stop line "
     "symbolic LO..HI, if_all_agree symbolic; compared: standalone collect() vs collect_paths vs collect_by_line per member (lines, "
     "variables, printouts, validity, scan/match counters) and the caller-visible lines of the breadth-first run",
     outside="groups of 4; symbolic cell text (the symbolic ints are realised when results are archived, so the solver drives a "
     "walk over the box; each path ends in a z3-checked assertion); next_*/fast_forward_* variants (thorough)",
     encodes=ENC,
-    tiers={"quick": {"timeout": 1800, "K": {"LO": -1, "HI": 4}, "shards": product(order=["ab", "ba"], tc=[0], tb=[0], kb=[-1, 1, 3], agree=[False, True])
-                     + product(order=["ac", "ca"], tb=[0], kb=[-1], agree=[False, True], ta=[1])},
-           "thorough": {"timeout": 6000, "K": {"LO": -1, "HI": 5}, "shards": product(order=["ab", "ba", "abc", "cab"], agree=[False, True], tb=[-1, 1, 3], tc=[0, 2])}},
+    tiers={"quick": {"timeout": 1800, "K": {"LO": -1, "HI": 4}, "shards": product(order=["ab"], tc=[0], tb=[0], kb=[-1, 2], agree=[False, True]) + product(order=["ba"], tc=[0], tb=[0], kb=[1], agree=[False, True])
+                     + product(order=["ac", "ca"], tb=[0], kb=[-1], agree=[False, True], ta=[1])
+                     + product(order=["ab"], tc=[0], tb=[0], kb=[2], agree=[False], kind=["ff", "next"])},
+           "thorough": {"timeout": 6000, "K": {"LO": -1, "HI": 5}, "shards": product(order=["ab", "ba", "abc", "cab"], agree=[False, True], tb=[-1, 1, 3], tc=[0, 2])
+                     + product(order=["ab", "cab"], agree=[False, True], tb=[0], tc=[1], kind=["ff", "next"])}},
 )
-def schedules(order: str, agree: bool, ta: int, tb: int, kb: int, tc: int) -> str:
+def schedules(order: str, agree: bool, ta: int, tb: int, kb: int, tc: int, kind: str = "collect") -> str:
     kit.HOLD["symta"] = ta
     kit.HOLD["symtb"] = tb
     kit.HOLD["symkb"] = kb
@@ -77,20 +80,39 @@ def schedules(order: str, agree: bool, ta: int, tb: int, kb: int, tc: int) -> st
     with NoTracing():
         root, cs = kitpaths.env({"g": texts})
     alone = [_standalone(t) for t in texts]
-    cs.collect_paths(filename="data", pathsname="g")
-    serial = _group_states(cs)
     with NoTracing():
         cs2 = kitpaths.new_instance()
-    got = cs2.collect_by_line(filename="data", pathsname="g", if_all_agree=agree)
+    serial_yield = None
+    if kind == "collect":
+        cs.collect_paths(filename="data", pathsname="g")
+        got = cs2.collect_by_line(filename="data", pathsname="g", if_all_agree=agree)
+    elif kind == "ff":
+        cs.fast_forward_paths(filename="data", pathsname="g")
+        cs2.fast_forward_by_line(filename="data", pathsname="g", if_all_agree=agree)
+        got = None
+    else:
+        serial_yield = [list(x) for x in cs.next_paths(filename="data", pathsname="g")]
+        got = [list(x) for x in cs2.next_by_line(filename="data", pathsname="g", if_all_agree=agree)]
+    serial = _group_states(cs)
     byline = _group_states(cs2)
     with NoTracing():
         kitpaths.cleanup(root)
     problems = ""
     for i, m in enumerate(order):
-        if alone[i] != serial[i]:
-            problems += "member %s: standalone != collect_paths; " % m
-        if alone[i] != byline[i]:
-            problems += "member %s: standalone != collect_by_line; " % m
+        a, se, by = alone[i], serial[i], byline[i]
+        if kind != "collect":
+            # fast_forward/next do not keep lines in the results: compare everything but the lines
+            a, se, by = a[1:], se[1:], by[1:]
+        if a != se:
+            problems += "member %s: standalone != serial run; " % m
+        if a != by:
+            problems += "member %s: standalone != breadth-first run; " % m
+    if serial_yield is not None:
+        want_serial = []
+        for i in range(len(order)):
+            want_serial += alone[i][0]
+        if serial_yield != want_serial:
+            problems += "lines yielded by next_paths differ from the members' own lines; "
     # caller-visible lines: per record, union / intersection of the decisions of the members still running on it
     want = []
     recs = _records()
@@ -105,8 +127,8 @@ def schedules(order: str, agree: bool, ta: int, tb: int, kb: int, tc: int) -> st
         keep = all(votes) if agree else any(votes)
         if keep:
             want.append(rec)
-    if [list(x) for x in got] != want:
-        problems += "caller lines of collect_by_line differ; "
+    if got is not None and [list(x) for x in got] != want:
+        problems += "caller lines of the breadth-first run differ; "
     return problems
 
 
